@@ -20,6 +20,7 @@ Partial: transfers out of / into the SQL engine go through `conform` (C17, valid
 -/
 import DafRel.Lemmas.Build
 import DafRel.Bridge.Tables
+import DafRel.Bridge.RelOps
 
 namespace DafRel.Props.C15
 
@@ -134,6 +135,13 @@ theorem backtrack_stops_at_locked (st : Store) (fuel : Nat) (op : AnyOp) (tree :
 theorem bridge_locked : Gen.locked =
     [("LeafRelation", true), ("UnaryOperationRelation", false), ("BinaryOperationRelation", false),
      ("Materialization", true), ("Transfer", false), ("Select", false)] := Bridge.locked_eq
+
+/-- `Transfer.simplify` and `Materialization.simplify`, as translated from the current Python source
+on this run (translator T-f), are the model's `transferSimplify` / `matSimplify` that the theorems
+above are about. -/
+theorem bridge_simplify_methods (dest : Engine) (t : Rel) :
+    Gen.Transfer_simplify dest t = transferSimplify dest t ∧ Gen.Materialization_simplify t = matSimplify t :=
+  ⟨Bridge.Transfer_simplify_eq dest t, Bridge.Materialization_simplify_eq t⟩
 
 /-- The locked nodes (whole subtrees rooted at a leaf or a materialization) of a tree. -/
 def lockedNodes : Rel → List Rel
